@@ -767,6 +767,14 @@ fn evidence_json(
         for (k, v) in measures {
             o.insert(k, v);
         }
+        // results of secondary engines run by ./check before this process (native real pool, Miri)
+        if let Ok(extra) = std::env::var("WALRUS_DST_EXTRA_EVIDENCE") {
+            if let Ok(Value::Object(m)) = serde_json::from_str::<Value>(&extra) {
+                for (k, v) in m {
+                    o.insert(k, v);
+                }
+            }
+        }
     }
     json!({
         "property_id": prop.id(),
